@@ -3,7 +3,7 @@ CONSTANTS
   AlphaA = {"CF", "EN", "GA"}
   AlphaB = {"CF", "CB", "AL", "GA"}
   AlphaC = {"GT", "AL"}
-  AlphaL = {"LC", "LG", "CF", "GA", "EN", "AL", "CB"}
+  AlphaL = {"LC", "LG", "CF", "GA", "EN", "AL"}
   SortsBeforeExport = TRUE
   TwoRuns = FALSE
 INVARIANTS AnyLocIsReference Emit
